@@ -1536,9 +1536,207 @@ def tr_walk(res):
     res["randomLocus"] = w
 
 
+# ------------------------------------------------------------------ i_mep::basic_iterator (begin() .. end(): the exons)
+def tr_iterator(res):
+    docs = X.ast_dump(TU, "vita::i_mep::basic_iterator")
+    spec = []
+    for d in docs:
+        spec += X.find_all(d, lambda x: x.get("kind") == "ClassTemplateSpecializationDecl" and x.get("name") == "basic_iterator")
+    spec = [s_ for s_ in spec if any(c.get("kind") == "CXXMethodDecl" and c.get("name") == "operator++" and body_of(c) is not None
+                                      for c in kids(s_))]
+    # the non-const instantiation is the one `mutation` uses
+    spec = [s_ for s_ in spec if any(c.get("kind") == "TypeAliasDecl" and c.get("name") == "ind" and qtype(c) == "vita::i_mep"
+                                      for c in kids(s_))]
+    if not spec:
+        raise Refuse("i_mep::basic_iterator<false> is not instantiated")
+    cls = spec[0]
+
+    def this_loci(n):
+        return member_chain(n) == ["$this", "loci_"]
+
+    def loci_call(n, meth, nargs):
+        """args of `loci_.<meth>(…)`"""
+        mc = member_call(n)
+        if not (mc and mc[0] == ["$this", "loci_"] and mc[1] == meth and len(mc[2]) == nargs):
+            return None
+        return mc[2]
+
+    def is_loci_begin(n, names=("begin", "cbegin")):
+        mc = member_call(n)
+        return mc is not None and mc[0] == ["$this", "loci_"] and mc[1] in names and not mc[2]
+
+    fr = {}
+    fields = [c.get("name") for c in kids(cls) if c.get("kind") == "FieldDecl"]
+    if fields != ["loci_", "ind_"]:
+        raise Refuse("basic_iterator: fields %r" % fields)
+    lf = [c for c in kids(cls) if c.get("kind") == "FieldDecl" and c.get("name") == "loci_"][0]
+    if qtype(lf) != "std::set<vita::locus>":
+        raise Refuse("basic_iterator: loci_ is a %r" % qtype(lf))
+    fr["container"] = "std::set<locus>"
+    ctors = [c for c in kids(cls) if c.get("kind") == "CXXConstructorDecl" and body_of(c) is not None and not c.get("isImplicit")]
+    c0 = [c for c in ctors if not params_of(c)]
+    c1 = [c for c in ctors if len(params_of(c)) == 1 and "ind &" in qtype(c)]
+    if len(c0) != 1 or len(c1) != 1:
+        raise Refuse("basic_iterator: constructors")
+    # basic_iterator() : loci_(), ind_(nullptr) {}
+    i0 = [i for i in kids(c0[0]) if i.get("kind") == "CXXCtorInitializer"]
+    e0 = peel(kids(i0[0])[0]) if i0 and kids(i0[0]) else {}
+    if not (len(i0) == 2 and e0.get("kind") == "CXXConstructExpr" and not kids(e0) and kids(body_of(c0[0])) == []):
+        raise Refuse("basic_iterator(): the sentinel does not have an empty set")
+    fr["sentinel"] = "loci_()"
+    # basic_iterator(ind &id) : loci_({id.best()}), ind_(&id) {}
+    idn = params_of(c1[0])[0].get("name")
+    i1 = [i for i in kids(c1[0]) if i.get("kind") == "CXXCtorInitializer"]
+    il = X.find_all(i1[0], lambda x: x.get("kind") == "InitListExpr") if i1 else []
+    mc = member_call(kids(il[0])[0]) if il and len(kids(il[0])) == 1 else None
+    a1 = peel(kids(i1[1])[0]) if len(i1) == 2 else {}
+    if not (mc and mc[0] == ["$" + idn] and mc[1] == "best" and not mc[2] and a1.get("kind") == "UnaryOperator" and
+            a1.get("opcode") == "&" and peel(kids(a1)[0]).get("referencedDecl", {}).get("name") == idn and
+            kids(body_of(c1[0])) == []):
+        raise Refuse("basic_iterator(id): not loci_({id.best()}), ind_(&id)")
+    fr["init"] = "{id.best()}"
+
+    def method(name):
+        ms = [c for c in kids(cls) if c.get("kind") == "CXXMethodDecl" and c.get("name") == name and body_of(c) is not None]
+        if len(ms) != 1:
+            raise Refuse("basic_iterator::%s: %d definitions" % (name, len(ms)))
+        return ms[0]
+
+    # locus() = *loci_.cbegin()
+    st = [x for x in kids(body_of(method("locus"))) if x.get("kind") != "NullStmt"]
+    r = peel(kids(st[0])[0]) if len(st) == 1 and st[0].get("kind") == "ReturnStmt" else {}
+    if r.get("kind") == "CXXConstructExpr" and len(kids(r)) == 1:
+        r = peel(kids(r)[0])
+    if not (r.get("kind") == "CXXOperatorCallExpr" and X.callee_name(r) == "operator*" and is_loci_begin(kids(r)[1])):
+        raise Refuse("basic_iterator::locus() is not *loci_.cbegin()")
+    # operator*() = ind_->genome_(locus())
+    st = [x for x in kids(body_of(method("operator*"))) if x.get("kind") != "NullStmt"]
+    r = peel(kids(st[0])[0]) if len(st) == 1 and st[0].get("kind") == "ReturnStmt" else {}
+    ok = False
+    if r.get("kind") == "CXXOperatorCallExpr" and X.callee_name(r) == "operator()" and len(kids(r)) == 3:
+        g = peel(kids(r)[1])
+        own = peel(kids(g)[0]) if g.get("kind") == "MemberExpr" and g.get("name") == "genome_" and kids(g) else {}
+        mcl = member_call(kids(r)[2])
+        ok = member_chain(own) == ["$this", "ind_"] and mcl is not None and mcl[0] == ["$this"] and mcl[1] == "locus" and not mcl[2]
+    if not ok:
+        raise Refuse("basic_iterator::operator*() is not ind_->genome_(locus())")
+    fr["deref"] = "ind_->genome_(*loci_.cbegin())"
+    # operator==: (loci_.empty() && rhs.loci_.empty()) || loci_.cbegin() == rhs.loci_.cbegin()
+    m = method("operator==")
+    rhs = params_of(m)[0].get("name")
+    st = [x for x in kids(body_of(m)) if x.get("kind") != "NullStmt"]
+    e = strip(kids(st[0])[0]) if len(st) == 1 and st[0].get("kind") == "ReturnStmt" else {}
+    ok = False
+    if e.get("kind") == "BinaryOperator" and e.get("opcode") == "||":
+        l, r = [strip(x) for x in kids(e)]
+        if l.get("kind") == "BinaryOperator" and l.get("opcode") == "&&":
+            m1, m2 = [member_call(x) for x in kids(l)]
+            both = m1 and m2 and m1[1] == "empty" and m2[1] == "empty" and m1[0] == ["$this", "loci_"] and m2[0] == ["$" + rhs, "loci_"]
+            if both and r.get("kind") == "CXXOperatorCallExpr" and X.callee_name(r) == "operator==":
+                b1, b2 = [member_call(x) for x in kids(r)[1:]]
+                ok = bool(b1 and b2 and b1[1] == "cbegin" and b2[1] == "cbegin" and b1[0] == ["$this", "loci_"] and
+                          b2[0] == ["$" + rhs, "loci_"])
+    if not ok:
+        raise Refuse("basic_iterator::operator== has an unknown shape")
+    m = method("operator!=")
+    st = [x for x in kids(body_of(m)) if x.get("kind") != "NullStmt"]
+    e = strip(kids(st[0])[0]) if len(st) == 1 and st[0].get("kind") == "ReturnStmt" else {}
+    inner = strip(kids(e)[0]) if e.get("kind") == "UnaryOperator" and e.get("opcode") == "!" else {}
+    if not (inner.get("kind") == "CXXOperatorCallExpr" and X.callee_name(inner) == "operator=="):
+        raise Refuse("basic_iterator::operator!= is not !(*this == rhs)")
+    fr["atEnd"] = "both-empty||same-cbegin"
+    # operator++
+    m = method("operator++")
+    st = [x for x in kids(body_of(m)) if x.get("kind") != "NullStmt"]
+    if len(st) != 2 or st[0].get("kind") != "IfStmt" or st[1].get("kind") != "ReturnStmt" or len(kids(st[0])) != 2:
+        raise Refuse("basic_iterator::operator++: shape")
+    g, blk = kids(st[0])
+    g = strip(g)
+    mg = member_call(kids(g)[0]) if g.get("kind") == "UnaryOperator" and g.get("opcode") == "!" else None
+    if not (mg and mg[0] == ["$this", "loci_"] and mg[1] == "empty"):
+        raise Refuse("basic_iterator::operator++ is not guarded by !loci_.empty()")
+    bs = [x for x in kids(blk) if x.get("kind") != "NullStmt"]
+    if len(bs) != 2 or bs[0].get("kind") != "DeclStmt" or bs[1].get("kind") != "IfStmt" or len(kids(bs[1])) != 3:
+        raise Refuse("basic_iterator::operator++: body")
+    vargs = kids(bs[0])[0]
+    an = vargs.get("name")
+    ma = peel(kids(vargs)[0])
+    ok = False
+    if ma.get("kind") == "CXXMemberCallExpr":
+        f = peel(kids(ma)[0])
+        if f.get("kind") == "MemberExpr" and f.get("name") == "arguments" and len(kids(ma)) == 1:
+            md = member_call(kids(f)[0])
+            ok = md is not None and md[0] == ["$this"] and md[1] == "operator*" and not md[2]
+    if not ok:
+        raise Refuse("basic_iterator::operator++: args is not (**this).arguments()")
+    c, t, e = kids(bs[1])
+    mc = member_call(c)
+    if not (mc and mc[0] == ["$" + an] and mc[1] == "empty"):
+        raise Refuse("basic_iterator::operator++: the case split is not on args.empty()")
+    er = loci_call(t, "erase", 1)
+    if not (er and is_loci_begin(er[0])):
+        raise Refuse("basic_iterator::operator++: a leaf is not removed by loci_.erase(loci_.begin())")
+    es = [x for x in kids(e) if x.get("kind") != "NullStmt"]
+    if len(es) != 4 or es[0].get("kind") != "DeclStmt":
+        raise Refuse("basic_iterator::operator++: else branch")
+    vnode = kids(es[0])[0]
+    nn = vnode.get("name")
+    ex = loci_call(kids(vnode)[0], "extract", 1)
+    if not (ex and is_loci_begin(ex[0])):
+        raise Refuse("basic_iterator::operator++: node is not loci_.extract(loci_.begin())")
+    asg = peel(es[1])
+    ok = False
+    if asg.get("kind") == "CXXOperatorCallExpr" and X.callee_name(asg) == "operator=":
+        l, r = kids(asg)[1:]
+        ml, mr = member_call(l), member_call(r)
+        ok = bool(ml and mr and ml[0] == ["$" + nn] and ml[1] == "value" and mr[0] == ["$" + an] and mr[1] == "front")
+    if not ok:
+        raise Refuse("basic_iterator::operator++: node.value() = args.front()")
+    i1_ = loci_call(es[2], "insert", 1)
+    fc = free_call(i1_[0]) if i1_ else None
+    if not (fc and fc[0] == "move" and peel(fc[1][0]).get("referencedDecl", {}).get("name") == nn):
+        raise Refuse("basic_iterator::operator++: loci_.insert(std::move(node))")
+    i2 = loci_call(es[3], "insert", 2)
+    ok = False
+    if i2:
+        fn = free_call(i2[0])
+        me = member_call(i2[1])
+        if fn and fn[0] == "next" and len(fn[1]) == 1:
+            mb = member_call(fn[1][0])
+            ok = bool(mb and mb[0] == ["$" + an] and mb[1] == "begin" and me and me[0] == ["$" + an] and me[1] == "end")
+    if not ok:
+        raise Refuse("basic_iterator::operator++: loci_.insert(std::next(args.begin()), args.end())")
+    fr["advance"] = "if(!empty){args:=(**this).arguments();empty?erase(begin()):replace(begin(),args.front())+insert(rest)}"
+    # i_mep::begin() / end()
+    for nm, nargs in (("begin", 1), ("end", 0)):
+        dd = X.ast_dump(TU, "vita::i_mep::" + nm)
+        ms = []
+        for d in dd:
+            ms += X.find_all(d, lambda x: x.get("kind") == "CXXMethodDecl" and x.get("name") == nm and body_of(x) is not None and
+                             qtype(x).startswith("i_mep::iterator"))
+        if len(ms) != 1:
+            raise Refuse("i_mep::%s(): %d non-const definitions" % (nm, len(ms)))
+        rets = [x for x in kids(body_of(ms[0])) if x.get("kind") == "ReturnStmt"]
+        other = [x for x in kids(body_of(ms[0])) if x.get("kind") not in ("ReturnStmt", "NullStmt") and not Ctx(None, None).ignorable(x)]
+        ce = X.find_all(rets[0], lambda x: x.get("kind") in ("CXXConstructExpr", "CXXTemporaryObjectExpr") and
+                        "basic_iterator" in qtype(x)) if len(rets) == 1 else []
+        ce = [x for x in ce if not (len(kids(x)) == 1 and "basic_iterator" in qtype(kids(x)[0]))]    # skip copy/move
+        if other or not ce:
+            raise Refuse("i_mep::%s(): shape" % nm)
+        args = kids(ce[-1])
+        if nargs == 1:
+            a = peel(args[0]) if len(args) == 1 else {}
+            if not (a.get("kind") == "UnaryOperator" and a.get("opcode") == "*" and peel(kids(a)[0]).get("kind") == "CXXThisExpr"):
+                raise Refuse("i_mep::begin() is not iterator(*this)")
+        elif args:
+            raise Refuse("i_mep::end() is not iterator()")
+    fr["beginEnd"] = "begin():iterator(*this);end():iterator()"
+    res["exonIter"] = fr
+
+
 def extract():
     res = {}
-    for f in (tr_ctor, tr_mutation, tr_crossover, tr_destroy, tr_get_block, tr_gene, tr_team, tr_roulette, tr_walk):
+    for f in (tr_ctor, tr_mutation, tr_crossover, tr_destroy, tr_get_block, tr_gene, tr_team, tr_roulette, tr_walk, tr_iterator):
         try:
             f(res)
         except (KeyError, IndexError, AttributeError, TypeError, ValueError) as e:
@@ -1603,6 +1801,10 @@ def render(res):
     L += ["/-- random_locus(prg) -/",
           "def randomLocus : Walk :=\n  { container := \"%s\", init := \"%s\", cursor := \"%s\",\n    expand := \"%s\", advance := \"%s\", result := \"%s\" }" % (
               rl["container"], rl["init"], rl["cursor"], rl["expand"], rl["advance"], rl["result"]), ""]
+    it = res["exonIter"]
+    L += ["/-- i_mep::basic_iterator (what `begin() .. end()` of an individual scans) -/",
+          "def exonIter : Frontier :=\n  { container := \"%s\", init := \"%s\", sentinel := \"%s\", deref := \"%s\",\n    advance := \"%s\",\n    atEnd := \"%s\", beginEnd := \"%s\" }" % (
+              it["container"], it["init"], it["sentinel"], it["deref"], it["advance"], it["atEnd"], it["beginEnd"]), ""]
     L += ["def teamMutation : List String := " + strs(res["teamMutation"]), "",
           "def teamIncAge : List String := " + strs(res["teamIncAge"]), "",
           "end Vita.C02.Gen"]
